@@ -9,6 +9,7 @@ import os
 import re
 import shutil
 import subprocess
+import threading
 import time
 
 from . import common
@@ -47,11 +48,18 @@ _RE_COV = re.compile(r'^<(\w+) line \d+, col \d+ to line \d+, col \d+ of module 
 
 
 def stage(workdir, modules=None):
-    """Copy spec files into workdir."""
+    """Copy spec files into workdir.
+
+    Each file is copied under a private name and renamed into place, so that a reader of the directory
+    (another thread's SANY or TLC) never sees a half-written or empty module.
+    """
     os.makedirs(workdir, exist_ok=True)
     for fn in os.listdir(common.SPEC):
         if fn.endswith(('.tla', '.cfg')):
-            shutil.copy(os.path.join(common.SPEC, fn), os.path.join(workdir, fn))
+            dst = os.path.join(workdir, fn)
+            part = '%s.part%d_%d' % (dst, os.getpid(), threading.get_ident())
+            shutil.copy(os.path.join(common.SPEC, fn), part)
+            os.replace(part, dst)
     return workdir
 
 
@@ -168,9 +176,10 @@ def parse_output(res, out):
 TLAPS_LIB = '/opt/veriftools/tlapm/lib/tlapm/stdlib'
 
 
-def sany(module, workdir=None):
+def sany(module, workdir=None, staged=False):
     wd = workdir or common.subdir('sany')
-    stage(wd)
+    if not staged:
+        stage(wd)
     # proof modules extend TLAPS, which lives in the proof system's library, not on TLC's class path
     lib = []
     if module.endswith('_proofs') and os.path.isdir(TLAPS_LIB):
